@@ -2993,11 +2993,12 @@ class sptensor:
             assert False, "Sptensor multiply requires two tensors of the same shape."
 
         if isinstance(other, ttb.sptensor):
-            idxSelf = tt_intersect_rows(self.subs, other.subs)
-            idxOther = tt_intersect_rows(other.subs, self.subs)
+            # Pair each stored subscript of self with the same subscript of other
+            # (the two operands may store their common subscripts in different orders)
+            valid, loc = tt_ismember_rows(self.subs, other.subs)
             return ttb.sptensor(
-                self.subs[idxSelf],
-                self.vals[idxSelf] * other.vals[idxOther],
+                self.subs[valid],
+                self.vals[valid] * other.vals[loc[valid]],
                 self.shape,
             )
         if isinstance(other, ttb.tensor):
